@@ -31,8 +31,8 @@ class C20:
             "the model only); 15 % of the histories follow the PROTOCOL of a cached operator whose rows bind every key (check; covered -> "
             "retrieve; otherwise insert every agreeing row) - no mixed level can arise there; thorough tier adds every history of <= 3 operations over 2 keys and 2 values; a case is non-trivial "
             "when at least one retrieval returns an entry or one check succeeds; distinct by hash of the history")
-    explanation = ("C20_check / C20_clear are proved for all histories; retrieval completeness is refuted in Coq (C20_retrieve_refuted) "
-                   "and reported as known finding C20-wildcard-preference; the C-model is tied to cache_data.py by comparing the "
+    explanation = ("C20_check / C20_clear / C20_retrieve (retrieval = a permutation of the reference answer) are proved for all "
+                   "histories; the C-model is tied to cache_data.py by comparing the "
                    "result of every operation (exact sequences, including dict order) with the model's")
 
     def budget(self, tier):
